@@ -198,9 +198,11 @@ class SymReal(object):
         ot = lift(o)
         if ot is None:
             if isinstance(o, _np.ndarray):
-                out = _np.empty(o.shape, dtype=object)
+                # like numpy's own object-array comparisons (which call bool() on every element): a concrete
+                # boolean array, each entry decided by the explorer (one branch decision per element)
+                out = _np.empty(o.shape, dtype=bool)
                 for idx in _np.ndindex(o.shape):
-                    out[idx] = self._cmp(o[idx], f)
+                    out[idx] = bool(self._cmp(o[idx], f))
                 return out
             return NotImplemented
         return SymBool(f(self.t, ot))
